@@ -25,45 +25,49 @@ import (
 )
 
 type Result struct {
-	ID        int      `json:"id"`
-	Panic     string   `json:"panic,omitempty"` // recovered in the caller's goroutine
-	Stack     string   `json:"stack,omitempty"`
-	Hang      bool     `json:"hang,omitempty"`
-	HangStack string   `json:"hang_stack,omitempty"`
-	Retried   bool     `json:"retried,omitempty"`
-	RespNil   bool     `json:"resp_nil"`
-	Err       string   `json:"err,omitempty"`
-	Status    int      `json:"status,omitempty"`
-	BodyErr   string   `json:"body_err,omitempty"`
-	BodyLen   int64    `json:"body_len"`
-	BodyNil   bool     `json:"body_nil,omitempty"` // a response without error whose Body is nil
-	Chain     []string `json:"chain,omitempty"`
-	ChainNil  bool     `json:"chain_nil,omitempty"`
-	HasChain  bool     `json:"has_chain,omitempty"`
-	Unc       bool     `json:"uncompressed,omitempty"`
-	HdrCE     string   `json:"hdr_ce,omitempty"`
-	HdrCT     string   `json:"hdr_ct,omitempty"`
-	HdrAE     string   `json:"hdr_ae,omitempty"`
-	Leak      []string `json:"leaked_goroutines,omitempty"`
-	HeapHigh  int64    `json:"heap_high"`
-	CPUms     int64    `json:"cpu_ms"`
-	WallMs    int64    `json:"wall_ms"`
-	Callbacks int64    `json:"callbacks,omitempty"`
-	G0        int      `json:"-"`
+	ID        int        `json:"id"`
+	Panic     string     `json:"panic,omitempty"` // recovered in the caller's goroutine
+	Stack     string     `json:"stack,omitempty"`
+	Hang      bool       `json:"hang,omitempty"`
+	HangStack string     `json:"hang_stack,omitempty"`
+	Retried   bool       `json:"retried,omitempty"`
+	RespNil   bool       `json:"resp_nil"`
+	Err       string     `json:"err,omitempty"`
+	Status    int        `json:"status,omitempty"`
+	BodyErr   string     `json:"body_err,omitempty"`
+	BodyLen   int64      `json:"body_len"`
+	BodyNil   bool       `json:"body_nil,omitempty"` // a response without error whose Body is nil
+	Chain     []string   `json:"chain,omitempty"`
+	ChainNil  bool       `json:"chain_nil,omitempty"`
+	HasChain  bool       `json:"has_chain,omitempty"`
+	Unc       bool       `json:"uncompressed,omitempty"`
+	HdrCE     string     `json:"hdr_ce,omitempty"`
+	HdrCT     string     `json:"hdr_ct,omitempty"`
+	HdrAE     string     `json:"hdr_ae,omitempty"`
+	Leak      []string   `json:"leaked_goroutines,omitempty"`
+	HeapHigh  int64      `json:"heap_high"`
+	CPUms     int64      `json:"cpu_ms"`
+	WallMs    int64      `json:"wall_ms"`
+	Callbacks int64      `json:"callbacks,omitempty"`
+	G0        int        `json:"-"`
 	Parser    *parserObs `json:"parser,omitempty"`
-	LeakStack string   `json:"leak_stack,omitempty"`
+	LeakStack string     `json:"leak_stack,omitempty"`
 }
 
 type countWriter struct{ n int64 }
 
-func (w *countWriter) Write(p []byte) (int, error) { atomic.AddInt64(&w.n, int64(len(p))); return len(p), nil }
+func (w *countWriter) Write(p []byte) (int, error) {
+	atomic.AddInt64(&w.n, int64(len(p)))
+	return len(p), nil
+}
 
 type world struct {
+	h2       *h2peer
 	reported map[string]bool // goroutine ids already attributed to an earlier case
-	peer    *rawPeer
-	tmp     string
-	hangs   int
-	metrics []metrics.Sample
+	peer     *rawPeer
+	tmp      string
+	hangs    int
+	metrics  []metrics.Sample
 }
 
 func heapNow(s []metrics.Sample) int64 {
@@ -77,14 +81,21 @@ func cpuNow() time.Duration {
 	return time.Duration(ru.Utime.Nano() + ru.Stime.Nano())
 }
 
-func buildClient(o Opts) *req.Client {
+func buildClient(o Opts, kind string) *req.Client {
 	c := req.C()
 	to := 8 * time.Second
 	if o.TimeoutMs > 0 {
 		to = time.Duration(o.TimeoutMs) * time.Millisecond
 	}
 	c.SetTimeout(to)
-	c.EnableForceHTTP1()
+	if kind == "h2" {
+		c.EnableH2C().EnableForceHTTP2()
+		if o.H2MaxHeaderList > 0 {
+			c.SetHTTP2MaxHeaderListSize(uint32(o.H2MaxHeaderList))
+		}
+	} else {
+		c.EnableForceHTTP1()
+	}
 	if o.AutoDecompress {
 		c.EnableAutoDecompress()
 	}
@@ -132,13 +143,26 @@ func (w *world) attempt(cs *Case, data [][]byte) *Result {
 	}
 	w.peer.scripts.Store(id, sc)
 	defer w.peer.scripts.Delete(id)
+	addr := w.peer.addr()
+	if cs.Kind == "h2" {
+		w.h2.cur.Store(&sc.rounds[0])
+		addr = w.h2.addr()
+	}
 
-	c := buildClient(cs.Opts)
+	c := buildClient(cs.Opts, cs.Kind)
 	res.G0 = runtime.NumGoroutine() // client-lifetime goroutines (e.g. the client-level dumper) are part of the baseline
-	defer c.GetTransport().CloseIdleConnections()
+	defer func() {
+		// cleanup must not wedge the harness when the library is wedged
+		d := make(chan struct{})
+		go func() { c.GetTransport().CloseIdleConnections(); close(d) }()
+		select {
+		case <-d:
+		case <-time.After(3 * time.Second):
+		}
+	}()
 	cw := &countWriter{}
 	var ncb int64
-	url := "http://" + w.peer.addr() + "/c/" + id
+	url := "http://" + addr + "/c/" + id
 	done := make(chan struct{})
 	var mu sync.Mutex
 	go func() {
